@@ -51,8 +51,13 @@ func (c RCfg) proxyYAML(b *strings.Builder) {
 	}
 	b.WriteString("  listens:\n")
 	for _, l := range c.Listens {
-		fmt.Fprintf(b, "  - address: %s\n", yq(l.Addr))
-		if l.UDP > 0 {
+		if l.Addr == "" {
+			// no address: bound to every local address
+			fmt.Fprintf(b, "  - udp-port: %d\n", l.UDP)
+		} else {
+			fmt.Fprintf(b, "  - address: %s\n", yq(l.Addr))
+		}
+		if l.UDP > 0 && l.Addr != "" {
 			fmt.Fprintf(b, "    udp-port: %d\n", l.UDP)
 		}
 		if l.TCP > 0 {
